@@ -47,8 +47,8 @@ KNOWN = os.path.join(VERIF, "known_findings.txt")
 ENV = dict(os.environ)
 ENV.update(
     {
-        "HPKE_VERIF_MODEL": os.path.join(VERIF, "model", "inrepo.rs"),
-        "HPKE_VERIF_KEMS": os.path.join(VERIF, "model", "kems.rs"),
+        "HPKE_VERIF_MODEL": os.path.join(os.environ.get("VERIF_BUILD_DIR", os.path.join(VERIF, ".build")), "model", "inrepo.rs"),
+        "HPKE_VERIF_KEMS": os.path.join(os.environ.get("VERIF_BUILD_DIR", os.path.join(VERIF, ".build")), "model", "kems.rs"),
         "RUSTFLAGS": '--cfg hpke_verif --cfg curve25519_dalek_backend="serial"',
         "CARGO_NET_OFFLINE": "true",
         "CARGO_TERM_COLOR": "never",
@@ -111,6 +111,10 @@ def build():
     os.makedirs(OUT, exist_ok=True)
     os.makedirs(CRATE, exist_ok=True)
     subprocess.run(["rsync", "-a", "--delete", "--exclude", "target", CRATE_SRC + "/", CRATE + "/"], check=True)
+    # the model files that are textually included into hpke are snapshotted as well
+    msnap = os.path.join(BUILD, "model")
+    os.makedirs(msnap, exist_ok=True)
+    subprocess.run(["rsync", "-a", "--delete", os.path.join(VERIF, "model") + "/", msnap + "/"], check=True)
     # the path dependency on the repository under test
     ct = os.path.join(CRATE, "Cargo.toml")
     if REPO != "/repo":
@@ -529,6 +533,8 @@ def main():
 
 
 def conclude(prop, hs, results, args, seed, tb, t_start):
+    # only this property's harnesses count for its verdict and evidence
+    results = {h["name"]: results[h["name"]] for h in hs}
     fixed, known = load_known()
     violations = []
     known_hits = []
